@@ -43,7 +43,7 @@ SPEC = dict(
          "patterns of trig_to_sqrt and non-matching inputs; conj = conjugate on products, integer and rational powers, "
          "the function classes it distributes over, log, abs, sign, symbols, Gaussian numbers; ri = as_real_imag on "
          "constant expressions (Gaussian numbers, pi, E, integer / rational / complex powers, the 12 classes, abs, exp); "
-         "xexp = expand_as_exp (no class implements it: E:NotImplemented); *-fixed = boundary cases. impl_stats: op_*, "
+         "ri-powsum = sums containing integer powers 2..5 of (constant + q*I) plus further terms (nested sums with constants in real and imaginary parts); xexp = expand_as_exp (no class implements it: E:NotImplemented); *-fixed = boundary cases. impl_stats: op_*, "
          "points_judged, points_discarded_singular_or_near_cut, points_discarded_overflow, cases_without_judged_point.",
     not_covered=[
         "as_numer_denom on inputs with non-integer powers whose numerator/denominator were recombined "
